@@ -642,8 +642,8 @@ def judge(p, cfg, rid, is_fmt, src, kind, A, extra, Fs, res, rec, touched, ctl_r
     pred = is_forbidden_pred(Fs)
     if sbx.deep_find(rec.values, pred):
         bad.append(("leak-identity", "the forbidden object reached finalize/filter/test"))
-    if res[0] == "ok" and MARK in res[1]:
-        bad.append(("leak-printed", "tracer marker in the output"))
+    if MARK in res[-1]:
+        bad.append(("leak-printed", "tracer marker in the output / exception message"))
     if any(m == MARK for m, _ in touched):
         bad.append(("leak-used", f"tracer was used: {sorted(set(h for m, h in touched if m == MARK))}"))
     if res[0] == "ok" and ctl_res is not None:
@@ -687,7 +687,7 @@ def data_shard(arg):
             data, objs = build_data(kind, PUBLIC_NAME, extra)
             res, rec, touched, env = run_once(cfg, src, data)
             pubs = [getattr(o, PUBLIC_NAME) for o in objs]
-            if (sbx.deep_find(rec.values, lambda v: any(v is x for x in pubs)) or (res[0] == "ok" and PUBMARK in res[1])
+            if (sbx.deep_find(rec.values, lambda v: any(v is x for x in pubs)) or PUBMARK in res[-1]
                     or any(m == PUBMARK for m, _ in touched)):
                 live = True
             dispose(objs)
